@@ -107,8 +107,12 @@ def path_source_cases(ctx, replay=None):
     import uberjob
     from uberjob.stores import JsonFileStore, PathSource
     viol, done = [], 0
-    cases = [replay["path_case"]] if replay else ["str", "pathlib", "symlink", "symlink-pathlib"]
-    for kind in cases:
+    # "...-reused": the SAME Plan, Registry and PathSource objects serve all three runs (a store object must not remember
+    # what it saw in an earlier run)
+    cases = [replay["path_case"]] if replay else ["str", "pathlib", "symlink", "symlink-pathlib", "str-reused", "symlink-pathlib-reused"]
+    for kind0 in cases:
+        reused = kind0.endswith("-reused")
+        kind = kind0[:-len("-reused")] if reused else kind0
         with tempfile.TemporaryDirectory() as d:
             data = os.path.join(d, "data.txt")
             with open(data, "w") as fh:
@@ -133,9 +137,16 @@ def path_source_cases(ctx, replay=None):
                 reg.add(a, JsonFileStore(os.path.join(d, "a.json")))
                 return plan, reg, a
 
+            shared = []
+
             def run():
                 del calls[:]
-                plan, reg, a = build()
+                if reused:
+                    if not shared:
+                        shared.append(build())
+                    plan, reg, a = shared[0]
+                else:
+                    plan, reg, a = build()
                 return uberjob.run(plan, registry=reg, output=a, progress=None), list(calls)
             time.sleep(0.02)
             r1 = run()
@@ -147,9 +158,10 @@ def path_source_cases(ctx, replay=None):
             r3 = run()
             done += 1
             if r1 != ("v1", ["load"]) or r2 != ("v2", ["load"]) or r3 != ("v2", []):
-                viol.append({"property": "C05", "what": f"PathSource given as {kind}: run / change the file / run / run gave "
+                viol.append({"property": "C05", "what": f"PathSource given as {kind}{' (the same Plan / Registry / PathSource objects in all runs)' if reused else ''}: "
+                             f"run / change the file / run / run gave "
                              f"{[r1, r2, r3]}, expected [('v1', ['load']), ('v2', ['load']), ('v2', [])]",
-                             "replay_fn": "path_source", "path_case": kind})
+                             "replay_fn": "path_source", "path_case": kind0})
                 break
     return {"violations": viol, "disagreements": [], "coverage": {"path_source_cases": done}}
 
@@ -215,6 +227,57 @@ def special_source_cases(ctx, replay=None):
     return {"violations": viol, "disagreements": [], "coverage": {"special_source_cases": done}}
 
 
+def zoned_source_cases(ctx, replay=None):
+    """Sources that report an AWARE modified time (ModifiedTimeSource, LiteralSource) next to file stores (which report naive
+    local times), with the process in a zone east and in a zone west of UTC: a source one hour NEWER than the stored value makes
+    it out of date, one an hour OLDER does not - whatever the zone.  (The process zone is switched with `time.tzset()` and
+    restored.)"""
+    import datetime as dt
+    import os
+    import tempfile
+    import time
+
+    import uberjob
+    from uberjob.stores import JsonFileStore, LiteralSource, ModifiedTimeSource
+    viol, done = [], 0
+    cases = [replay["zoned_case"]] if replay else [[tz, cls, newer] for tz in ("UJT-9", "UJW8") for cls in ("mts", "lit") for newer in (True, False)]
+    old_tz = os.environ.get("TZ")
+    try:
+        for tz, cls, newer in cases:
+            os.environ["TZ"] = tz
+            time.tzset()
+            with tempfile.TemporaryDirectory() as d:
+                calls = []
+                now = dt.datetime.now(dt.timezone.utc)
+                early = now - dt.timedelta(hours=2)
+
+                def run(when):
+                    del calls[:]
+                    plan, reg = uberjob.Plan(), uberjob.Registry()
+                    store = ModifiedTimeSource(when) if cls == "mts" else LiteralSource("v", when)
+                    src = reg.source(plan, store)
+                    a = plan.call(lambda v: (calls.append("f"), 1)[1], src)
+                    reg.add(a, JsonFileStore(os.path.join(d, "a.json")))
+                    uberjob.run(plan, registry=reg, output=a, progress=None)
+                    return list(calls)
+                first = run(early)                      # builds a.json now; the source is two hours old
+                second = run(now + dt.timedelta(hours=1) if newer else now - dt.timedelta(hours=1))
+                done += 1
+                want = ["f"] if newer else []
+                if first != ["f"] or second != want:
+                    viol.append({"property": "C05", "what": f"TZ={tz}, {'ModifiedTimeSource' if cls == 'mts' else 'LiteralSource'} reporting an aware time one "
+                                 f"hour {'after' if newer else 'before'} the stored file was written: the second run executed {second}, expected {want}",
+                                 "replay_fn": "zoned_source", "zoned_case": [tz, cls, newer]})
+                    break
+    finally:
+        if old_tz is None:
+            os.environ.pop("TZ", None)
+        else:
+            os.environ["TZ"] = old_tz
+        time.tzset()
+    return {"violations": viol, "disagreements": [], "coverage": {"zoned_source_cases": done}}
+
+
 def phys_structure(ctx, res):
     """The end-to-end theorems of this property stand on the model of the physical plan (`physFinal`, `physEngine`): compare
     it, node by node and keyed edge by keyed edge, with the graphs the real dry run and the real run build (the structural
@@ -242,6 +305,10 @@ def explore(ctx):
             f = path_source_cases(ctx)
             res["violations"] += f["violations"]
             res["coverage"].update(f["coverage"])
+        if not res["violations"]:
+            f = zoned_source_cases(ctx)
+            res["violations"] += f["violations"]
+            res["coverage"].update(f["coverage"])
     return res
 
 
@@ -266,6 +333,9 @@ def replay(ctx, payload):
     w = payload.get("witness", payload)
     if w.get("replay_fn") == "special_source":
         r = special_source_cases(ctx, replay=w)
+        return r["violations"][0]["what"] if r["violations"] else None
+    if w.get("replay_fn") == "zoned_source":
+        r = zoned_source_cases(ctx, replay=w)
         return r["violations"][0]["what"] if r["violations"] else None
     if w.get("replay_fn") == "path_source":
         r = path_source_cases(ctx, replay=w)
